@@ -103,29 +103,44 @@ is the compiler's new scope when the statement completed normally -/
 def Post (cs cs' : CState) (env' : Env) (flow : Flow) (l' : Locals) : Prop :=
   ∃ ext, Rel l' cs'.next (ext ++ cs.sc) env' ∧ (flow = .normal → cs'.sc = ext ++ cs.sc)
 
-def StmtSim (p : Program) (tbl : Table) (n : Nat) : Prop :=
-  ∀ retTy st s flow s' tr, exec p n retTy st s = ⟨.ok flow, s', tr⟩ → noCallS st = true →
+/-- the simulation of the expressions in statement position (value case): the state is unchanged and
+the machine, emitting the same trace, pushes the value -/
+def TopSim (okE : Expr → Bool) (p : Program) (tbl : Table) (n : Nat) : Prop :=
+  ∀ e s v s1 tr, eval p n e s = ⟨.ok v, s1, tr⟩ → okE e = true →
+  ∀ sc c, compileExpr sc e = some c → ∀ locals, AgreeS sc s.env locals →
+  ∀ code pre post stk, code = pre ++ c ++ post →
+    s = s1 ∧ Exec tbl ⟨code, pre.length, stk, locals⟩ tr (.at ⟨code, pre.length + c.length, v :: stk, locals⟩)
+
+theorem topSim_noCall (p : Program) (tbl : Table) (n : Nat) : TopSim noCall p tbl n := by
+  intro e s v s1 tr h hnc sc c hc locals hag code pre post stk hcode
+  obtain ⟨hv, hs, ht⟩ := eval_eq_pure hnc h
+  subst ht
+  exact ⟨hs, Exec.of_reach (sim_expr_ok p tbl n e s v hnc hv sc c hc locals hag.agree code pre post stk hcode)⟩
+
+def StmtSim (okE : Expr → Bool) (p : Program) (tbl : Table) (n : Nat) : Prop :=
+  ∀ retTy st s flow s' tr, exec p n retTy st s = ⟨.ok flow, s', tr⟩ → okS okE st = true →
   ∀ cs c cs', compileStmt retTy cs st = some (c, cs') → ∀ locals, Rel locals cs.next cs.sc s.env →
   ∀ code pre post stk brk cont L, L = pre.length → code = pre ++ resolve brk cont L c ++ post →
     L + c.length ≤ brk → cont ≤ L →
     Sim tbl code stk L locals tr (L + c.length) brk cont (Post cs cs' s'.env flow) flow
 
-def StmtsSim (p : Program) (tbl : Table) (n : Nat) : Prop :=
-  ∀ retTy ss s flow s' tr, execStmts p n retTy ss s = ⟨.ok flow, s', tr⟩ → noCallB ss = true →
+def StmtsSim (okE : Expr → Bool) (p : Program) (tbl : Table) (n : Nat) : Prop :=
+  ∀ retTy ss s flow s' tr, execStmts p n retTy ss s = ⟨.ok flow, s', tr⟩ → okB okE ss = true →
   ∀ cs c cs', compileBlock retTy cs ss = some (c, cs') → ∀ locals, Rel locals cs.next cs.sc s.env →
   ∀ code pre post stk brk cont L, L = pre.length → code = pre ++ resolve brk cont L c ++ post →
     L + c.length ≤ brk → cont ≤ L →
     Sim tbl code stk L locals tr (L + c.length) brk cont (Post cs cs' s'.env flow) flow
 
-def BlockSim (p : Program) (tbl : Table) (n : Nat) : Prop :=
-  ∀ retTy ss s flow s' tr, execBlock p n retTy ss s = ⟨.ok flow, s', tr⟩ → noCallB ss = true →
+def BlockSim (okE : Expr → Bool) (p : Program) (tbl : Table) (n : Nat) : Prop :=
+  ∀ retTy ss s flow s' tr, execBlock p n retTy ss s = ⟨.ok flow, s', tr⟩ → okB okE ss = true →
   ∀ cs c cs', compileBlock retTy cs ss = some (c, cs') → ∀ locals, Rel locals cs.next cs.sc s.env →
   ∀ code pre post stk brk cont L, L = pre.length → code = pre ++ resolve brk cont L c ++ post →
     L + c.length ≤ brk → cont ≤ L →
     Sim tbl code stk L locals tr (L + c.length) brk cont
       (fun l' => Rel l' cs.next cs.sc s'.env) flow
 
-theorem block_step (p : Program) (tbl : Table) (n : Nat) (hL' : StmtsSim p tbl n) : BlockSim p tbl (n + 1) := by
+theorem block_step (okE : Expr → Bool) (p : Program) (tbl : Table) (n : Nat) (hL' : StmtsSim okE p tbl n) :
+    BlockSim okE p tbl (n + 1) := by
   intro retTy ss s flow s' tr h hnc cs c cs' hc locals hrel code pre post stk brk cont L hL hcode hb hcn
   simp only [execBlock, Res.mk.injEq] at h
   obtain ⟨ho, hs, ht⟩ := h
@@ -137,8 +152,8 @@ theorem block_step (p : Program) (tbl : Table) (n : Nat) (hL' : StmtsSim p tbl n
   rw [← hs]
   exact hrel.restore hr
 
-theorem stmts_step (p : Program) (tbl : Table) (n : Nat) (hS : StmtSim p tbl n) (hL' : StmtsSim p tbl n) :
-    StmtsSim p tbl (n + 1) := by
+theorem stmts_step (okE : Expr → Bool) (p : Program) (tbl : Table) (n : Nat) (hS : StmtSim okE p tbl n)
+    (hL' : StmtsSim okE p tbl n) : StmtsSim okE p tbl (n + 1) := by
   intro retTy ss s flow s' tr h hnc cs c cs' hc locals hrel code pre post stk brk cont L hL hcode hb hcn
   subst hL
   cases ss with
@@ -150,7 +165,7 @@ theorem stmts_step (p : Program) (tbl : Table) (n : Nat) (hS : StmtSim p tbl n) 
     obtain ⟨hf, hs, ht⟩ := this; subst hf hs ht
     exact ⟨locals, by simpa using Exec.refl _, [], by simpa using hrel, fun _ => by simp⟩
   | cons st rest =>
-    simp only [noCallB, Bool.and_eq_true] at hnc
+    simp only [okB, Bool.and_eq_true] at hnc
     cases h1 : compileStmt retTy cs st with
     | none => simp [compileBlock, h1] at hc
     | some r1 =>
@@ -223,14 +238,15 @@ theorem pure_inv {flow0 flow : Flow} {s s' : State} {tr : List String}
   simp only [Res.mk.injEq, Outcome.ok.injEq] at h
   exact ⟨h.1.symm, h.2.1, h.2.2.symm⟩
 
-theorem stmt_step (p : Program) (tbl : Table) (n : Nat) (hB : BlockSim p tbl n) (hS : StmtSim p tbl n) :
-    StmtSim p tbl (n + 1) := by
+theorem stmt_step (okE : Expr → Bool) (hnmE : ∀ e sc c, okE e = true → compileExpr sc e = some c → noMarks c = true)
+    (p : Program) (tbl : Table) (n : Nat) (hE : TopSim okE p tbl n)
+    (hB : BlockSim okE p tbl n) (hS : StmtSim okE p tbl n) : StmtSim okE p tbl (n + 1) := by
   intro retTy st s flow s' tr h hnc cs c cs' hc locals hrel code pre post stk brk cont L hL hcode hb hcn
   subst hL
   have hag := hrel.agreeS
   cases st with
   | decl isLet x ty e =>
-    simp only [noCallS] at hnc
+    simp only [okS] at hnc
     cases he : compileExpr cs.sc e with
     | none => simp [compileStmt, he] at hc
     | some ce =>
@@ -238,16 +254,17 @@ theorem stmt_step (p : Program) (tbl : Table) (n : Nat) (hB : BlockSim p tbl n) 
       obtain ⟨hc1, hc2⟩ := hc; subst hc1 hc2
       simp only [exec] at h
       obtain ⟨v, s1, tr1, tr2, hev, hk, htr⟩ := bind_eq_ok h
-      obtain ⟨hv, hs1, ht1⟩ := eval_eq_pure hnc hev
-      subst hs1 ht1
+      have hnm : noMarks (ce ++ [.box ty, .setLocal cs.next]) = true := by
+        rw [noMarks_append, hnmE _ _ _ hnc he]; rfl
+      rw [resolve_noMarks _ _ _ _ hnm] at hcode
+      obtain ⟨hs1, r1⟩ := hE e s v s1 tr1 hev hnc cs.sc ce he locals hag code pre
+        ([.box ty, .setLocal cs.next] ++ post) stk (by simp [hcode])
+      subst hs1
       have : (⟨.ok .normal, ⟨(x, box ty v) :: s.env⟩, []⟩ : Res Flow) = ⟨.ok flow, s', tr2⟩ := hk
       simp only [Res.mk.injEq, Outcome.ok.injEq] at this
-      obtain ⟨hf, hs, ht⟩ := this; subst hf hs ht htr
-      have hnm : noMarks (ce ++ [.box ty, .setLocal cs.next]) = true := by
-        rw [noMarks_append, compileExpr_noMarks _ _ _ hnc he]; rfl
-      rw [resolve_noMarks _ _ _ _ hnm] at hcode
-      have r1 := sim_expr_ok p tbl n e s v hnc hv cs.sc ce he locals hag.agree code pre
-        ([.box ty, .setLocal cs.next] ++ post) stk (by simp [hcode])
+      obtain ⟨hf, hs, ht⟩ := this; subst hf hs ht
+      have htr' : tr = tr1 := by simpa using htr
+      subst htr' 
       have hi1 : code[pre.length + ce.length]? = some (.box ty) := by locate hcode
       have hi2 : code[pre.length + ce.length + 1]? = some (.setLocal cs.next) := by locate hcode
       have e2 : Exec tbl ⟨code, pre.length + ce.length, v :: stk, locals⟩ [] (.at ⟨code, pre.length + ce.length + 1, box ty v :: stk, locals⟩) :=
@@ -256,11 +273,11 @@ theorem stmt_step (p : Program) (tbl : Table) (n : Nat) (hB : BlockSim p tbl n) 
           (.at ⟨code, pre.length + ce.length + 1 + 1, stk, locals.set cs.next (box ty v)⟩) :=
         Exec.one (by simp only [VM.step, hi2])
       refine ⟨locals.set cs.next (box ty v), ?_, [(x, cs.next)], ?_, fun _ => rfl⟩
-      · have := ((Exec.of_reach r1).trans e2).trans e3
+      · have := (r1.trans e2).trans e3
         simpa [Nat.add_assoc] using this
       · exact .cons (hrel.set_ge (Nat.le_refl _) _) (by simp [Locals.get_set]) (Nat.lt_succ_self _)
   | expr e =>
-    simp only [noCallS] at hnc
+    simp only [okS] at hnc
     cases he : compileExpr cs.sc e with
     | none => simp [compileStmt, he] at hc
     | some ce =>
@@ -268,19 +285,20 @@ theorem stmt_step (p : Program) (tbl : Table) (n : Nat) (hB : BlockSim p tbl n) 
       obtain ⟨hc1, hc2⟩ := hc; subst hc1 hc2
       simp only [exec] at h
       obtain ⟨v, s1, tr1, tr2, hev, hk, htr⟩ := bind_eq_ok h
-      obtain ⟨hv, hs1, ht1⟩ := eval_eq_pure hnc hev
-      subst hs1 ht1
-      obtain ⟨hf, hs, ht⟩ := pure_inv hk; subst hf hs ht htr
       have hnm : noMarks (ce ++ [.drop]) = true := by
-        rw [noMarks_append, compileExpr_noMarks _ _ _ hnc he]; rfl
+        rw [noMarks_append, hnmE _ _ _ hnc he]; rfl
       rw [resolve_noMarks _ _ _ _ hnm] at hcode
-      have r1 := sim_expr_ok p tbl n e s v hnc hv cs.sc ce he locals hag.agree code pre
+      obtain ⟨hs1, r1⟩ := hE e s v s1 tr1 hev hnc cs.sc ce he locals hag code pre
         ([.drop] ++ post) stk (by simp [hcode])
+      subst hs1
+      obtain ⟨hf, hs, ht⟩ := pure_inv hk; subst hf hs ht
+      have htr' : tr = tr1 := by simpa using htr
+      subst htr' 
       have hi1 : code[pre.length + ce.length]? = some .drop := by locate hcode
       have e2 : Exec tbl ⟨code, pre.length + ce.length, v :: stk, locals⟩ [] (.at ⟨code, pre.length + ce.length + 1, stk, locals⟩) :=
         Exec.one (by simp only [VM.step, hi1])
       refine ⟨locals, ?_, [], by simpa using hrel, fun _ => by simp⟩
-      have := (Exec.of_reach r1).trans e2
+      have := r1.trans e2
       simpa [Nat.add_assoc] using this
   | ret oe =>
     cases oe with
@@ -293,7 +311,7 @@ theorem stmt_step (p : Program) (tbl : Table) (n : Nat) (hB : BlockSim p tbl n) 
       have hi1 : code[pre.length]? = some .ret := by locate hcode
       exact Exec.ret (by simp only [VM.step, hi1])
     | some e =>
-      simp only [noCallS] at hnc
+      simp only [okS] at hnc
       cases he : compileExpr cs.sc e with
       | none => simp [compileStmt, he] at hc
       | some ce =>
@@ -301,21 +319,22 @@ theorem stmt_step (p : Program) (tbl : Table) (n : Nat) (hB : BlockSim p tbl n) 
         obtain ⟨hc1, hc2⟩ := hc; subst hc1 hc2
         simp only [exec] at h
         obtain ⟨v, s1, tr1, tr2, hev, hk, htr⟩ := bind_eq_ok h
-        obtain ⟨hv, hs1, ht1⟩ := eval_eq_pure hnc hev
-        subst hs1 ht1
-        obtain ⟨hf, hs, ht⟩ := pure_inv hk; subst hf hs ht htr
         have hnm : noMarks (ce ++ [.box retTy, .retValue]) = true := by
-          rw [noMarks_append, compileExpr_noMarks _ _ _ hnc he]; rfl
+          rw [noMarks_append, hnmE _ _ _ hnc he]; rfl
         rw [resolve_noMarks _ _ _ _ hnm] at hcode
-        have r1 := sim_expr_ok p tbl n e s v hnc hv cs.sc ce he locals hag.agree code pre
+        obtain ⟨hs1, r1⟩ := hE e s v s1 tr1 hev hnc cs.sc ce he locals hag code pre
           ([.box retTy, .retValue] ++ post) stk (by simp [hcode])
+        subst hs1
+        obtain ⟨hf, hs, ht⟩ := pure_inv hk; subst hf hs ht
+        have htr' : tr = tr1 := by simpa using htr
+        subst htr' 
         have hi1 : code[pre.length + ce.length]? = some (.box retTy) := by locate hcode
         have hi2 : code[pre.length + ce.length + 1]? = some .retValue := by locate hcode
         have e2 : Exec tbl ⟨code, pre.length + ce.length, v :: stk, locals⟩ [] (.at ⟨code, pre.length + ce.length + 1, box retTy v :: stk, locals⟩) :=
           Exec.one (by simp only [VM.step, hi1])
         have e3 : Exec tbl ⟨code, pre.length + ce.length + 1, box retTy v :: stk, locals⟩ [] (.ret (box retTy v)) :=
           Exec.ret (by simp only [VM.step, hi2])
-        have := ((Exec.of_reach r1).trans e2).trans e3
+        have := (r1.trans e2).trans e3
         simpa [Sim] using this
   | break_ =>
     simp only [compileStmt, Option.some.injEq, Prod.mk.injEq] at hc
@@ -343,7 +362,7 @@ theorem stmt_step (p : Program) (tbl : Table) (n : Nat) (hB : BlockSim p tbl n) 
   | assign tgt ty e =>
     cases tgt with
     | var x =>
-      simp only [noCallS] at hnc
+      simp only [okS] at hnc
       cases he : compileExpr cs.sc e with
       | none => simp [compileStmt, he] at hc
       | some ce =>
@@ -361,20 +380,21 @@ theorem stmt_step (p : Program) (tbl : Table) (n : Nat) (hB : BlockSim p tbl n) 
             simp only [Res.mk.injEq, Outcome.ok.injEq] at this
             obtain ⟨hl, hs0, ht0⟩ := this; subst hl hs0 ht0
             obtain ⟨v, s1, tr1, tr2, hev, hk, htr⟩ := bind_eq_ok h
-            obtain ⟨hv, hs1, ht1⟩ := eval_eq_pure hnc hev
-            subst hs1 ht1
+            have hnm : noMarks (ce ++ [.box ty, .setLocal i]) = true := by
+              rw [noMarks_append, hnmE _ _ _ hnc he]; rfl
+            rw [resolve_noMarks _ _ _ _ hnm] at hcode
+            obtain ⟨hs1, r1⟩ := hE e s v s1 tr1 hev hnc cs.sc ce he locals hag code pre
+              ([.box ty, .setLocal i] ++ post) stk (by simp [hcode])
+            subst hs1
             obtain ⟨_, vx, hlk, _⟩ := hrel.slot hx
             obtain ⟨env', hu, hrel'⟩ := hrel.update hx (box ty v)
             obtain ⟨u, s2, tr3, tr4, hw, hk2, htr2⟩ := bind_eq_ok hk
             rw [lvWrite_var hlk hu] at hw
             simp only [Res.mk.injEq, Outcome.ok.injEq] at hw
             obtain ⟨_, hs2, ht3⟩ := hw; subst hs2 ht3
-            obtain ⟨hf, hs, ht⟩ := pure_inv hk2; subst hf hs ht htr2 htr htr0
-            have hnm : noMarks (ce ++ [.box ty, .setLocal i]) = true := by
-              rw [noMarks_append, compileExpr_noMarks _ _ _ hnc he]; rfl
-            rw [resolve_noMarks _ _ _ _ hnm] at hcode
-            have r1 := sim_expr_ok p tbl (m + 1) e s v hnc hv cs.sc ce he locals hag.agree code pre
-              ([.box ty, .setLocal i] ++ post) stk (by simp [hcode])
+            obtain ⟨hf, hs, ht⟩ := pure_inv hk2; subst hf hs ht htr2
+            have htr' : tr = tr1 := by simpa [htr] using htr0
+            subst htr' 
             have hi1 : code[pre.length + ce.length]? = some (.box ty) := by locate hcode
             have hi2 : code[pre.length + ce.length + 1]? = some (.setLocal i) := by locate hcode
             have e2 : Exec tbl ⟨code, pre.length + ce.length, v :: stk, locals⟩ [] (.at ⟨code, pre.length + ce.length + 1, box ty v :: stk, locals⟩) :=
@@ -383,7 +403,7 @@ theorem stmt_step (p : Program) (tbl : Table) (n : Nat) (hB : BlockSim p tbl n) 
                 (.at ⟨code, pre.length + ce.length + 1 + 1, stk, locals.set i (box ty v)⟩) :=
               Exec.one (by simp only [VM.step, hi2])
             refine ⟨locals.set i (box ty v), ?_, [], by simpa using hrel', fun _ => by simp⟩
-            have := ((Exec.of_reach r1).trans e2).trans e3
+            have := (r1.trans e2).trans e3
             simpa [Nat.add_assoc] using this
     | _ => simp [compileStmt] at hc
   | swap l lty r rty => simp [compileStmt] at hc
@@ -398,7 +418,7 @@ theorem stmt_step (p : Program) (tbl : Table) (n : Nat) (hB : BlockSim p tbl n) 
         have hle1 := compileBlock_next_le retTy t cs ct cs1 hct
         cases oe with
         | none =>
-          simp only [noCallS, Bool.and_eq_true, and_true] at hnc
+          simp only [okS, Bool.and_eq_true, and_true] at hnc
           have hnmc := compileExpr_noMarks _ _ _ hnc.1 hcc
           simp only [compileStmt, hcc, hct, Option.bind_eq_bind, Option.bind_some, Option.some.injEq, Prod.mk.injEq] at hc
           obtain ⟨hc1, hc2⟩ := hc; subst hc1 hc2
@@ -445,7 +465,7 @@ theorem stmt_step (p : Program) (tbl : Table) (n : Nat) (hB : BlockSim p tbl n) 
           | some r2 =>
             obtain ⟨ce, cs2⟩ := r2
             have hle2 := compileBlock_next_le retTy eb ⟨cs.sc, cs1.next⟩ ce cs2 hce
-            simp only [noCallS, Bool.and_eq_true] at hnc
+            simp only [okS, Bool.and_eq_true] at hnc
             have hnmc := compileExpr_noMarks _ _ _ hnc.1.1 hcc
             simp only [compileStmt, hcc, hct, hce, Option.bind_eq_bind, Option.bind_some, Option.some.injEq, Prod.mk.injEq] at hc
             obtain ⟨hc1, hc2⟩ := hc; subst hc1 hc2
@@ -502,7 +522,7 @@ theorem stmt_step (p : Program) (tbl : Table) (n : Nat) (hB : BlockSim p tbl n) 
               simp at this
   | «while» c0 body =>
     have hnc0 := hnc
-    simp only [noCallS, Bool.and_eq_true] at hnc
+    simp only [okS, Bool.and_eq_true] at hnc
     cases hcc : compileExpr cs.sc c0 with
     | none => simp [compileStmt, hcc] at hc
     | some cc =>
@@ -598,7 +618,8 @@ theorem stmt_step (p : Program) (tbl : Table) (n : Nat) (hB : BlockSim p tbl n) 
           simp at this
 
 /-- **Forward simulation, value case, call-free statements of L0** (all fuel levels) -/
-theorem sim_all (p : Program) (tbl : Table) : ∀ n, StmtSim p tbl n ∧ BlockSim p tbl n ∧ StmtsSim p tbl n
+theorem sim_all (p : Program) (tbl : Table) :
+    ∀ n, StmtSim noCall p tbl n ∧ BlockSim noCall p tbl n ∧ StmtsSim noCall p tbl n
   | 0 => by
     refine ⟨?_, ?_, ?_⟩
     · intro retTy st s flow s' tr h; simp [exec, M.outOfFuel] at h
@@ -606,10 +627,29 @@ theorem sim_all (p : Program) (tbl : Table) : ∀ n, StmtSim p tbl n ∧ BlockSi
     · intro retTy ss s flow s' tr h; simp [execStmts, M.outOfFuel] at h
   | n + 1 => by
     obtain ⟨a, b, c⟩ := sim_all p tbl n
-    exact ⟨stmt_step p tbl n b a, block_step p tbl n c, stmts_step p tbl n a c⟩
+    exact ⟨stmt_step noCall (fun e sc c => compileExpr_noMarks sc e c) p tbl n (topSim_noCall p tbl n) b a,
+      block_step noCall p tbl n c, stmts_step noCall p tbl n a c⟩
 
-/-- a function body: if the evaluator's block ends with `return v` (or runs to its end, `v = void`),
-the machine started on the body's code with an empty caller stack returns `v` with the same trace -/
+/-- a function body: if the evaluator's block ends with `return v` (or runs to its end, then `void`),
+the machine started on the body's code returns that value with the same trace -/
+theorem sim_body_gen (okE : Expr → Bool) (p : Program) (tbl : Table) (n : Nat) (hB : BlockSim okE p tbl n)
+    (retTy : Ty) (ss : List Stmt) (s s' : State) (flow : Flow) (tr : List String)
+    (h : execBlock p n retTy ss s = ⟨.ok flow, s', tr⟩) (hnc : okB okE ss = true)
+    (hbc : flow ≠ .brk ∧ flow ≠ .cont)
+    (cs cs' : CState) (c : List Instr) (hc : compileBlock retTy cs ss = some (c, cs')) (hnm : noMarks c = true)
+    (locals : Locals) (hrel : Rel locals cs.next cs.sc s.env) :
+    Exec tbl ⟨c, 0, [], locals⟩ tr (.ret (match flow with | .ret w => w | _ => .void)) := by
+  have sim := hB retTy ss s flow s' tr h hnc cs c cs' hc locals hrel c [] [] [] c.length 0 0 rfl
+    (by simp [resolve_noMarks _ _ _ _ hnm]) (by omega) (by omega)
+  cases flow with
+  | ret w => exact sim
+  | normal =>
+    obtain ⟨l', e, _⟩ := sim
+    have : Exec tbl ⟨c, 0 + c.length, [], l'⟩ [] (.ret .void) := Exec.ret (by simp [VM.step])
+    simpa using e.trans this
+  | brk => exact absurd rfl hbc.1
+  | cont => exact absurd rfl hbc.2
+
 theorem sim_body (p : Program) (tbl : Table) (n : Nat) (retTy : Ty) (ss : List Stmt) (s s' : State)
     (flow : Flow) (tr : List String) (v : Value)
     (h : execBlock p n retTy ss s = ⟨.ok flow, s', tr⟩) (hnc : noCallB ss = true)
@@ -617,13 +657,10 @@ theorem sim_body (p : Program) (tbl : Table) (n : Nat) (retTy : Ty) (ss : List S
     (cs cs' : CState) (c : List Instr) (hc : compileBlock retTy cs ss = some (c, cs')) (hnm : noMarks c = true)
     (locals : Locals) (hrel : Rel locals cs.next cs.sc s.env) :
     Exec tbl ⟨c, 0, [], locals⟩ tr (.ret v) := by
-  have sim := (sim_all p tbl n).2.1 retTy ss s flow s' tr h hnc cs c cs' hc locals hrel c [] [] [] c.length 0 0 rfl
-    (by simp [resolve_noMarks _ _ _ _ hnm]) (by omega) (by omega)
+  have := sim_body_gen noCall p tbl n (sim_all p tbl n).2.1 retTy ss s s' flow tr h hnc
+    (by rcases hv with hv | ⟨hv, _⟩ <;> subst hv <;> simp) cs cs' c hc hnm locals hrel
   rcases hv with hv | ⟨hv, hvv⟩
-  · subst hv; exact sim
-  · subst hv hvv
-    obtain ⟨l', e, _⟩ := sim
-    have : Exec tbl ⟨c, 0 + c.length, [], l'⟩ [] (.ret .void) := Exec.ret (by simp [VM.step])
-    simpa using e.trans this
+  · subst hv; exact this
+  · subst hv hvv; exact this
 
 end Verif.Model.Lang.VM
